@@ -15,6 +15,8 @@ from core.exact import fr, tok, Tokens
 BIN = ("mul", "add", "sub", "div")
 TOL = Fraction(1, 10 ** 9)
 EXACT_BITS = 22          # degree <= 2 terms of such values stay below 2^53
+CTOL = 2e-4              # continuous time: solve_ivp at rtol = 1e-10 (observed <= 1.1e-7) against the exact response, relative to
+                         # the largest value of the response
 
 
 # ----------------------------------------------------------------------------
@@ -274,7 +276,7 @@ def varg_value(v):
     for part in v[1]:
         if part[0] == "s":
             q = Fraction(part[1])
-            out.append(int(q) if q.denominator == 1 else float(q))
+            out.append(int(q) if q.denominator == 1 and abs(q) < 2 ** 50 else float(q))
         else:
             out.append([float(Fraction(x)) for x in part[1]])
     return out
@@ -337,7 +339,10 @@ class C08(Family):
     prop = "C08"
     externals = ["scipy.optimize.root (find_operating_point: the model solves the affine root problem "
                  "exactly and checks the certificate rootfun(z) = 0)",
-                 "scipy.integrate.solve_ivp (continuous-time simulation is not modelled)"]
+                 "scipy.integrate.solve_ivp (continuous-time simulation: not modelled; for interconnections "
+                 "with linear time-invariant maps the implementation's result at rtol = 1e-10 is compared with "
+                 "the exact response of the model's composite (A, B, C, D))",
+                 "scipy.linalg.expm (reference response of x' = A x + B u for piecewise linear u, per interval)"]
     assumptions = [
         "IEEE arithmetic is exact on the generated small-integer / dyadic data (exact equality of the "
         "whole trajectory is required when every model value has at most %d bits and the time grid is "
@@ -346,14 +351,30 @@ class C08(Family):
         "eps = 1e-6 to 1e-5 (rounding of f(x0 + eps e_j) - f(x0) divided by eps)",
         "operating points are compared only where the affine root problem is square and non-singular "
         "(the model's exact solution is unique); `result.success = False` counts as reported failure",
-        "time points are strictly increasing and there are at least two (otherwise ufun divides by zero)"]
+        "time points are strictly increasing and there are at least two (otherwise ufun divides by zero)",
+        "a power-of-two scaling of all signals commutes exactly with the floating-point evaluation of maps "
+        "that are homogeneous of degree 1 (no underflow / overflow), so cases at signal level "
+        "2^-s (2^-210 … 2^66) are judged on the values times 2^s (theorems simulate_smul / ic2_homog for the model side); "
+        "likewise a power-of-two scaling of the time grid when the maps do not use t",
+        "continuous time: solve_ivp (RK45 / DOP853, rtol = 1e-10, atol = 1e-13 at the signal level) is within "
+        "2e-4 of the exact response relative to its largest value (observed <= 1.1e-7 on 1300 cases)"]
     rule = ("discrete-time polynomial systems (degree <= 2, parameters, time dependence), StateSpace "
             "leaves, scalar/array gains, combined by * + - / neg feedback (depth <= 2/3, non-square "
             "shapes); inputs as scalars, 1-D/2-D arrays, lists of lists, mixed lists; initial states as "
             "scalars, short lists, nested lists, arrays; evaluation grids equal to / finer than / beyond "
             "the input grid; linearisation of affine and polynomial systems; operating points of affine "
-            "systems with index lists.  Non-trivial: simulation with >= 3 steps and a non-zero input or "
-            "initial state; linearisation/operating point with >= 1 state; shape case with an operator")
+            "systems with index lists.  Added input classes: interconnections with homogeneous maps driven "
+            "at signal levels 2^-14 … 2^-200 and 2^20 … 2^60 (inputs and initial state also at different "
+            "levels); systems without states with unspecified / continuous timebase on unequally spaced "
+            "grids; sampling times 2^-20 … 2^-40; the eps argument of linearize (2^-s at points of the same "
+            "level, 1/64 … 2^-20 for polynomial maps), timebase None; operating points of systems with "
+            "timebase None in all three branches and square index-list problems in every timebase; "
+            "continuous-time responses (dt = 0 / None) of interconnections with linear maps, t_eval inside, "
+            "unequally spaced time points, signal levels as above.  Non-trivial: simulation with >= 3 steps "
+            "and a non-zero input or initial state; linearisation/operating point with >= 1 state; shape "
+            "case with an operator")
+
+    force_n = None       # when set, every generated leaf has this many states
 
     # ---- generation: systems -----------------------------------------------------
     def poly(self, rng, n, m, params, affine, tvar, kind="f"):
@@ -361,11 +382,21 @@ class C08(Family):
         vars_ = ["x%d" % i for i in range(n)] + ["u%d" % i for i in range(m)]
         if kind == "f0":       # output that must not depend on u (no direct term)
             vars_ = ["x%d" % i for i in range(n)]
-        k = rng.choice([1, 2, 2, 3])
+        homog = affine == "homog"     # every term of degree exactly 1 in (x, u): the maps commute
+        k = rng.choice([1, 2, 2, 3])   # with a scaling of all signals (times a parameter or t allowed)
         for _ in range(k):
             c = rng.choice([-2, -1, -1, 1, 1, 2, 3])
             r = rng.random()
-            if not vars_ or r < 0.12:
+            if homog:
+                if not vars_:
+                    continue
+                if r < 0.7 or not (params or tvar):
+                    vs = [[rng.choice(vars_), 1]]
+                elif params and (r < 0.85 or not tvar):
+                    vs = [["p" + rng.choice(sorted(params)), 1], [rng.choice(vars_), 1]]
+                else:
+                    vs = [["t", 1], [rng.choice(vars_), 1]]
+            elif not vars_ or r < 0.12:
                 vs = []
             elif affine or r < 0.62:
                 vs = [[rng.choice(vars_), 1]]
@@ -379,23 +410,28 @@ class C08(Family):
             else:
                 vs = [[rng.choice(vars_), 1]]
             terms.append([str(c), vs])
-        if rng.random() < 0.1:
+        if not homog and rng.random() < 0.1:
             terms.append([tok(Fraction(rng.choice([1, -1, 3]), 2)), []])
         merged = {}
         for c, vs in terms:                      # combine like terms (no cancelling duplicates)
             key = tuple(sorted((v, e) for v, e in vs))
             merged[key] = merged.get(key, Fraction(0)) + Fraction(c)
-        return [[tok(c), [list(ve) for ve in key]] for key, c in merged.items() if c != 0] or [["1", []]]
+        out = [[tok(c), [list(ve) for ve in key]] for key, c in merged.items() if c != 0]
+        if homog:
+            return out or ([["1", [[vars_[0], 1]]]] if vars_ else [])
+        return out or [["1", []]]
 
     def pleaf(self, rng, shape, dt, n=None, affine=False, direct=True):
         p, m = shape
         if n is None:
             n = rng.choice([0, 1, 1, 2, 2, 3])
+            if self.force_n is not None:
+                n = self.force_n
         params = {}
-        if not affine and rng.random() < 0.35:
+        if (not affine or affine == "homog") and rng.random() < 0.35:
             for nm in rng.sample(["a", "b", "c"], rng.choice([1, 2])):
                 params[nm] = str(rng.choice([-1, 1, 2, 3]))
-        tvar = (not affine) and rng.random() < 0.2
+        tvar = (not affine or affine == "homog") and rng.random() < 0.2
         fs = [self.poly(rng, n, m, params, affine, tvar) for _ in range(n)]
         if n > 0 and p == n and rng.random() < 0.15:
             hs = None
@@ -411,6 +447,8 @@ class C08(Family):
         p, m = shape
         if n is None:
             n = rng.choice([0, 1, 2, 2, 3])
+            if self.force_n is not None:
+                n = self.force_n
         ri = lambda: rng.randint(-2, 2)
         A = [ri() for _ in range(n * n)]
         B = [ri() for _ in range(n * m)]
@@ -493,9 +531,9 @@ class C08(Family):
         return self.gen(rng, depth, self.rshape(rng), dt, affine)
 
     # ---- generation: arguments ----------------------------------------------------
-    def grid(self, rng, dt, N):
+    def grid(self, rng, dt, N, hs=None):
         if dt == "T":
-            h = rng.choice([Fraction(1), Fraction(1), Fraction(1, 2), Fraction(2)])
+            h = rng.choice(hs or [Fraction(1), Fraction(1), Fraction(1, 2), Fraction(2)])
         else:
             h = Fraction(dt[1:])
         t0 = rng.choice([0, 0, 0, 1, -1]) * h
@@ -574,11 +612,11 @@ class C08(Family):
             return {}
         return {nm: str(rng.choice([-2, 1, 2, 4])) for nm in names if rng.random() < 0.7}
 
-    def case_resp(self, rng, tier):
-        dt = rng.choice(["T", "T", "D1", "D1", "D1/2", "D1/4", exact.dt_tok(0.1)])
+    def case_resp(self, rng, tier, affine=False, dts=None, composite=False, hs=None):
+        dt = rng.choice(dts or ["T", "T", "D1", "D1", "D1/2", "D1/4", exact.dt_tok(0.1)])
         for _ in range(20):
-            tree = self.tree(rng, tier, dt)
-            if tree_dt(tree) == dt:
+            tree = self.tree(rng, tier, dt, affine)
+            if tree_dt(tree) == dt and (ops_in(tree) or not composite):
                 break
         try:
             _, n, m, _ = self.model_shape(tree)
@@ -589,7 +627,7 @@ class C08(Family):
             T = [fr(x) for x in (np.arange(N) * 0.1)]
             h = None
         else:
-            T, h = self.grid(rng, dt, N)
+            T, h = self.grid(rng, dt, N, hs)
         teval = None
         r = rng.random()
         if h is not None and r < 0.3:
@@ -635,17 +673,18 @@ class C08(Family):
             return a[0], a[1] + b[1], b[2], True
         return a[0], a[1] + b[1], a[2], True
 
-    def case_lin(self, rng, tier):
-        dt = rng.choice(["C", "C", "T", "D1", "D1/2"])
-        affine = rng.random() < 0.5
+    def case_lin(self, rng, tier, dts=None, affine=None):
+        dt = rng.choice(dts or ["C", "C", "T", "D1", "D1/2"])
+        drawn = rng.random() < 0.5
+        affine = drawn if affine is None else affine
         tree = self.tree(rng, tier, dt, affine=affine)
         p, n, m, _ = self.model_shape(tree)
         return {"kind": "lin", "sys": tree, "t": str(rng.choice([0, 0, 1, 2])),
                 "X0": self.gen_vec(rng, n, lo=-2, hi=2), "U0": self.gen_vec(rng, m, lo=-2, hi=2) if rng.random() < 0.85 else ["N"],
                 "via": rng.choice(["method", "func"]), "params": self.call_params(rng, tree)}
 
-    def case_op(self, rng, tier):
-        dt = rng.choice(["C", "C", "D1", "T"])
+    def case_op(self, rng, tier, dts=None):
+        dt = rng.choice(dts or ["C", "C", "D1", "T"])
         r = rng.random()
         if r < 0.5:
             n = rng.choice([1, 2, 2, 3])
@@ -718,7 +757,256 @@ class C08(Family):
         tree = self.gen(rng, rng.choice([1, 2]), self.rshape(rng), dt)
         return {"kind": "shape", "sys": tree}
 
+
+    # ---- generation: input classes added after the seeded changes ---------------------------
+    # signal levels 2^-s: below every plausible absolute threshold (1e-5, 1e-8, 1e-10, 1e-16, tiny),
+    # and far above 1
+    SCALES = [34, 36, 40, 40, 48, 60, 100, 200, 27, 20, 14, -20, -60]
+
+    @staticmethod
+    def scale_tok(v, k):
+        return tok(Fraction(v) / Fraction(2) ** k if k >= 0 else Fraction(v) * Fraction(2) ** (-k))
+
+    def scale_U(self, U, k):
+        """the input argument with every sample multiplied by 2^-k (same container kinds)"""
+        sc = lambda l: [self.scale_tok(v, k) for v in l]
+        kind = U[0]
+        if kind == "S":
+            q = Fraction(self.scale_tok(U[1], k))
+            return ["S", tok(q), U[2] if q.denominator == 1 and abs(q) < 2 ** 50 else "float"]
+        if kind == "A1":
+            return ["A1", sc(U[1])]
+        if kind == "A2":
+            return ["A2", U[1], U[2], sc(U[3])]
+        es = []
+        for e in U[1]:
+            if e[0] == "s":
+                q = Fraction(self.scale_tok(e[1], k))
+                es.append(["s", tok(q), e[2] if abs(q) < 2 ** 50 else "float"])
+            elif e[0] == "v":
+                es.append(["v", sc(e[1]), e[2]])
+            else:
+                es.append(["m", e[1], e[2], sc(e[3])])
+        return ["L", es, U[2]]
+
+    def scale_vec(self, v, k):
+        sc = lambda l: [self.scale_tok(x, k) for x in l]
+        kind = v[0]
+        if kind == "N":
+            return v
+        if kind == "S":
+            q = Fraction(self.scale_tok(v[1], k))
+            return ["S", tok(q), (v[2] if len(v) > 2 else "float")
+                    if q.denominator == 1 and abs(q) < 2 ** 50 else "float"]
+        if kind == "A":
+            return ["A", sc(v[1])]
+        return ["L", [["s", self.scale_tok(e[1], k)] if e[0] == "s" else ["v", sc(e[1])] for e in v[1]]]
+
+    def case_resp_scaled(self, rng, tier):
+        """interconnections whose maps are homogeneous of degree 1 in (x, u) (so that a power-of-two
+        scaling of all signals commutes exactly with the floating-point computation), driven with
+        inputs / initial states at the level 2^-s; inputs and initial state may sit at different
+        levels (mixed magnitudes)"""
+        case = self.case_resp(rng, tier, affine="homog", composite=True,
+                              dts=["T", "T", "D1", "D1", "D1/2", "D1/4", exact.dt_tok(0.1)])
+        s = rng.choice(self.SCALES)
+        ju, jx = rng.choice([0, 0, 0, 0, 6, -6, 10]), rng.choice([0, 0, 0, 0, 6, -6, 10])
+        case["scale"] = s
+        case["U"] = self.scale_U(case["U"], s + ju)
+        case["X0"] = self.scale_vec(case["X0"], s + jx)
+        return case
+
+    def case_resp_static(self, rng, tier):
+        """systems without states (every leaf static), timebase unspecified or continuous: no grid
+        checks apply, so the time points need not be equally spaced and t_eval may lie anywhere"""
+        dt = rng.choice(["N", "N", "C"])
+        self.force_n = 0
+        try:
+            tree = self.gen(rng, rng.choice([1, 1, 2]), self.rshape(rng), dt,
+                            rng.choice([False, False, True, "homog"]))
+        finally:
+            self.force_n = None
+        _, n, m, _ = self.model_shape(tree)
+        N = rng.choice([2, 3, 4, 5])
+        T = [Fraction(rng.choice([0, 0, 1, -1]))]
+        for _ in range(N - 1):
+            T.append(T[-1] + rng.choice([Fraction(1, 2), Fraction(1), Fraction(1), Fraction(2), Fraction(1, 4)]))
+        teval = None
+        if rng.random() < 0.5:
+            teval = sorted(T[0] + Fraction(rng.randint(-4, 4 * N), 4) for _ in range(rng.randint(1, 5)))
+        case = {"kind": "resp", "sys": tree, "T": [tok(x) for x in T],
+                "teval": None if teval is None else [tok(x) for x in teval],
+                "U": self.gen_U(rng, m, N), "X0": self.gen_vec(rng, 0),
+                "params": self.call_params(rng, tree)}
+        if rng.random() < 0.3 and all(self.homogeneous(lf) for lf in leaves(tree)):
+            s = rng.choice(self.SCALES)
+            case["U"] = self.scale_U(case["U"], s)
+            case["scale"] = s
+        return case
+
+    def case_resp_tscale(self, rng, tier):
+        """sampling times 2^-20 … 2^-40 (the grid checks use absolute tolerances)"""
+        r = rng.choice([20, 30, 30, 40])
+        h = Fraction(1, 2 ** r)
+        case = self.case_resp(rng, tier, dts=["T", "D" + tok(h), "D" + tok(h)], hs=[h, h, 2 * h])
+        case["tscale"] = r
+        return case
+
+    @staticmethod
+    def homogeneous(lf):
+        """leaf whose maps are homogeneous of degree 1 in (x, u)"""
+        if lf[0] != "P":
+            return True
+        for poly in lf[6] + (lf[7] or []):
+            for _, vs in poly:
+                if sum(e for v, e in vs if v[0] in "xu") != 1:
+                    return False
+        return True
+
+    def case_lin_eps(self, rng, tier):
+        """the `eps` argument of linearize; for homogeneous maps a step 2^-s at a point of the same
+        level (or the origin), where all internal signals are of size 2^-s"""
+        if rng.random() < 0.6:
+            dt = rng.choice(["C", "C", "N", "T", "D1"])
+            for _ in range(20):
+                tree = self.gen(rng, rng.choice([1, 2]), self.rshape(rng), dt, "homog")
+                if ops_in(tree):
+                    break
+            p, n, m, _ = self.model_shape(tree)
+            s = rng.choice([x for x in self.SCALES if x > 0])
+            zero = rng.random() < 0.5
+            X0 = self.gen_vec(rng, n, lo=-2, hi=2)
+            U0 = self.gen_vec(rng, m, lo=-2, hi=2)
+            if zero:
+                X0, U0 = self.scale_vec(X0, 0), (self.scale_vec(U0, 0) if rng.random() < 0.7 else ["N"])
+                X0 = ["L", [["s", "0"] for _ in range(n)]]
+                if U0[0] != "N":
+                    U0 = ["L", [["s", "0"] for _ in range(m)]]
+            else:
+                X0, U0 = self.scale_vec(X0, s), self.scale_vec(U0, s)
+            return {"kind": "lin", "sys": tree, "t": str(rng.choice([0, 0, 1, 2])), "X0": X0, "U0": U0,
+                    "via": rng.choice(["method", "func"]), "params": self.call_params(rng, tree),
+                    "eps": tok(Fraction(1, 2 ** s))}
+        # polynomial maps: the forward difference depends on the step (eps times the remainder)
+        case = self.case_lin(rng, tier, dts=["C", "N", "N", "T", "D1"], affine=rng.random() < 0.2)
+        case["eps"] = rng.choice(["1/64", "1/1024", "1/1024", "1/4096", "1/100000", "1/1048576"])
+        return case
+
+    def case_op_general(self, rng, tier, dts):
+        """the index-list branch of find_operating_point with a square problem: non-empty lists,
+        as many constrained updates / outputs as free states / inputs"""
+        for _ in range(10):
+            case = self.case_op(rng, tier, dts=dts)
+            p, n, m, _ = self.model_shape(case["sys"])
+            if n > 0:
+                break
+        else:
+            return case
+        val = lambda: str(rng.randint(-3, 3))
+        full = lambda k: ["L", [["s", val()] for _ in range(k)]]
+        neg = lambda l, k: [i - k if rng.random() < 0.15 else i for i in l]
+        ix = sorted(rng.sample(range(n), rng.randint(0, n - 1)))
+        iu = sorted(rng.sample(range(m), rng.randint(0, m)))
+        free = (n - len(ix)) + (m - len(iu))
+        lo, hi = max(1, free - n), min(p, free - 1)
+        have_y = lo <= hi and not (free <= n and rng.random() < 0.4)
+        if have_y:
+            ny = rng.randint(lo, hi)
+            iy = sorted(rng.sample(range(p), ny))
+            nd = free - ny
+        else:
+            iy, nd = None, min(free, n)
+        idx = sorted(rng.sample(range(n), nd))
+        case.update({"Y0": full(p) if have_y else ["N"],
+                     "dx0": [val() for _ in range(n)] if rng.random() < 0.4 else None,
+                     "ix": neg(ix, n) if ix else None,
+                     "iu": neg(iu, m) if (iu or rng.random() < 0.5) else None,
+                     "idx": neg(idx, n) if (nd < n or rng.random() < 0.3) else None,
+                     "iy": None if iy is None else (neg(iy, p) if (len(iy) < p or rng.random() < 0.3) else None)})
+        if all(case[q] is None for q in ("iu", "iy", "ix", "idx")):
+            case["idx"] = list(range(n))
+        return case
+
+    def case_cresp(self, rng, tier):
+        """continuous time (dt = 0 or unspecified): interconnections of systems whose maps are linear
+        and time-invariant but whose classes are NonlinearIOSystem / InterconnectedSystem; simulated
+        with solve_ivp and compared with the exact response of the model's composite (A, B, C, D);
+        time points need not be equally spaced, t_eval anywhere inside; signals also at 2^-s"""
+        dt = rng.choice(["C", "C", "N"])
+        for _ in range(50):
+            tree = self.gen(rng, rng.choice([1, 1, 2]), self.rshape(rng), dt, "homog")
+            p, n, m, _ = self.model_shape(tree)
+            if ops_in(tree) and not uses_time(tree) and 0 < n <= 6 and tree_dt(tree) == dt \
+                    and all(lf[0] != "L" or lf[4] == dt for lf in leaves(tree)):
+                break
+        else:
+            tree = ["mul", self.pleaf(rng, (1, 1), dt, n=1, affine=True), ["S", "2", "int"]]
+            tree[1][5], tree[1][6], tree[1][7] = {}, [[["-1", [["x0", 1]]], ["1", [["u0", 1]]]]], [[["1", [["x0", 1]]]]]
+            p, n, m, _ = self.model_shape(tree)
+        N = rng.choice([2, 3, 4, 5])
+        h = rng.choice([Fraction(1, 4), Fraction(1, 2), Fraction(1, 2), Fraction(1)])
+        T = [Fraction(rng.choice([0, 0, 1, -1]))]
+        for _ in range(N - 1):
+            T.append(T[-1] + (h if rng.random() < 0.8 else h * rng.choice([Fraction(1, 2), 2])))
+        teval = None
+        if rng.random() < 0.4:
+            span = int((T[-1] - T[0]) * 8)
+            teval = sorted({T[0] + Fraction(rng.randint(0, span), 8) for _ in range(rng.randint(1, 6))})
+        val = lambda: str(rng.randint(-3, 3))
+        r = rng.random()
+        if r < 0.15:
+            U = ["S", val(), rng.choice(["int", "float"])]
+        elif r < 0.3 and m == 1:
+            U = ["A1", [val() for _ in range(N)]]
+        else:
+            U = ["A2", m, N, [val() for _ in range(m * N)]]
+        r = rng.random()
+        if r < 0.15:
+            X0 = ["S", val(), rng.choice(["int", "float"])]
+        elif r < 0.5:
+            X0 = ["A", [val() for _ in range(n)]]
+        else:
+            X0 = ["L", [["s", val()] for _ in range(n)]]
+        case = {"kind": "cresp", "sys": tree, "T": [tok(x) for x in T],
+                "teval": None if teval is None else [tok(x) for x in teval], "U": U, "X0": X0,
+                "params": self.call_params(rng, tree), "scale": 0,
+                "method": rng.choice(["RK45", "RK45", "RK45", "DOP853"])}
+        if rng.random() < 0.5:
+            s = rng.choice(self.SCALES)
+            case["scale"] = s
+            case["U"] = self.scale_U(U, s)
+            case["X0"] = self.scale_vec(X0, s)
+        return case
+
+    def extra(self, rng, tier):
+        n = 288 if tier == "quick" else 7200
+        out = []
+        for i in range(n):
+            r = i % 24
+            try:
+                if r < 3:
+                    out.append(self.case_cresp(rng, tier))
+                elif r < 11:
+                    out.append(self.case_resp_scaled(rng, tier))
+                elif r < 13:
+                    out.append(self.case_resp_static(rng, tier))
+                elif r < 15:
+                    out.append(self.case_resp_tscale(rng, tier))
+                elif r < 19:
+                    out.append(self.case_lin_eps(rng, tier))
+                elif r < 22:
+                    out.append(self.case_op_general(rng, tier, ["N", "N", "N", "D1", "T", "C"]))
+                else:
+                    out.append(self.case_op(rng, tier, dts=["N"]))
+            except RecursionError:
+                continue
+        return out
+
     def generate(self, rng, tier):
+        # the original streams first (same cases per seed as before), then the added input classes
+        return self.generate0(rng, tier) + self.extra(rng, tier)
+
+    def generate0(self, rng, tier):
         n = 720 if tier == "quick" else 18000
         out = []
         for i in range(n):
@@ -743,6 +1031,10 @@ class C08(Family):
         g23 = P(2, 2, 3, [x(0) + u(0) + u(1), [["1", [["x0", 1], ["x1", 1]]]]], [x(0), x(1), u(0)])
         lag = P(1, 1, 1, [x(0) + u(0)], [x(0)])
         full = lambda v: ["L", [["s", str(a)] for a in v]]
+        lvl = lambda a, k=40: tok(Fraction(a, 2 ** k))
+        gain5 = P(0, 1, 1, [], [[["5", [["u0", 1]]]]])
+        lagc = P(1, 1, 1, [[["-1", [["x0", 1]]], ["1", [["u0", 1]]]]], [x(0)], "C")
+        gain5c = P(0, 1, 1, [], [[["5", [["u0", 1]]]]], "C")
         return [
             # np.ones((2,3)) * nl  (the __rmul__ connection map)
             {"kind": "shape", "sys": ["mul", ["A", 2, 3, ["1"] * 6, "float"], g23]},
@@ -756,6 +1048,26 @@ class C08(Family):
             {"kind": "op", "sys": ["L", 2, 1, 1, "C", ["0", "1", "-2", "-3"], ["0", "1"], ["1", "0"], ["0"]],
              "t": "0", "X0": full([0, 0]), "U0": full([1]), "Y0": ["N"], "dx0": ["1", "0"],
              "iu": None, "iy": None, "ix": None, "idx": None, "params": {}},
+            # series connection at the signal level 2^-40 (an absolute threshold in the loop test of
+            # _compute_static_io drops the coupling)
+            {"kind": "resp", "sys": ["mul", gain5, lag], "T": ["0", "1", "2", "3"], "teval": None,
+             "U": ["A1", [lvl(1), lvl(-2), lvl(3), "0"]], "X0": ["L", [["s", lvl(2)]]], "params": {},
+             "scale": 40},
+            # the same in a loop, continuous time, level 2^-34, unequally spaced time points
+            {"kind": "cresp", "sys": ["fb", "-1", "method", lagc, gain5c], "T": ["0", "1/2", "1", "2"],
+             "teval": None, "U": ["A1", [lvl(1, 34), lvl(2, 34), lvl(-1, 34), lvl(1, 34)]],
+             "X0": ["L", [["s", lvl(1, 34)]]], "params": {}, "scale": 34, "method": "RK45"},
+            # linearisation at the origin with step 2^-40
+            {"kind": "lin", "sys": ["mul", gain5, lag], "t": "0", "X0": full([0]), "U0": full([0]),
+             "via": "method", "params": {}, "eps": lvl(1)},
+            # unspecified timebase (simulated as continuous time): the condition is f = 0 in the
+            # index-list branch as well
+            {"kind": "op", "sys": P(1, 1, 1, [[["-2", [["x0", 1]]], ["1", [["u0", 1]]]]], [x(0)], "N"),
+             "t": "0", "X0": full([0]), "U0": full([1]), "Y0": ["N"], "dx0": None,
+             "iu": [0], "iy": None, "ix": None, "idx": None, "params": {}},
+            {"kind": "op", "sys": ["mul", ["S", "2", "int"], P(1, 1, 1, [[["-2", [["x0", 1]]], ["1", [["u0", 1]]]]], [x(0)], "N")],
+             "t": "0", "X0": full([0]), "U0": full([1]), "Y0": full([3]), "dx0": None,
+             "iu": None, "iy": [0], "ix": None, "idx": [0], "params": {}},
         ]
 
     # ---- execution ----------------------------------------------------------
@@ -768,10 +1080,13 @@ class C08(Family):
             te = "0" if case["teval"] is None else "1 " + rats_tokens(case["teval"])
             return " ".join(["io resp", prog, rats_tokens(case["T"]), te, uarg_tokens(case["U"]),
                              varg_tokens(case["X0"]), env_tokens(case["params"])])
+        if k == "cresp":
+            # the composite's (A, B, C, D): forward differences with step 1 at the origin
+            return " ".join(["io lin", prog, "0 S 0 S 0 1", env_tokens(case["params"])])
         if k == "lin":
             return " ".join(["io lin", prog, case["t"], varg_tokens(case["X0"]),
                              varg_tokens(case["U0"]) if case["U0"][0] != "N" else "S 0",
-                             "1/1000000", env_tokens(case["params"])])
+                             case.get("eps") or "1/1000000", env_tokens(case["params"])])
         if k == "op":
             dx0 = "0" if case["dx0"] is None else "1 " + rats_tokens(case["dx0"])
             return " ".join(["io op", prog, case["t"], varg_tokens(case["X0"]), varg_tokens(case["U0"]),
@@ -809,13 +1124,33 @@ class C08(Family):
                                "y": flat_f(np.asarray(resp.outputs).T, N, p)}}
             except ValueError:
                 return {"ok": {"nonfinite": True}}
+        if k == "cresp":
+            T = np.array([float(Fraction(x)) for x in case["T"]])
+            kw = {}
+            if case["teval"] is not None:
+                kw["t_eval"] = np.array([float(Fraction(x)) for x in case["teval"]])
+            # absolute tolerance at the level of the signals (a power-of-two multiple of 1e-12)
+            opts = {"rtol": 1e-10, "atol": 1e-13 * 2.0 ** -case["scale"], "method": case["method"]}
+            resp = ct.input_output_response(sys, T, uarg_value(case["U"]), varg_value(case["X0"]),
+                                            params=prm, squeeze=False, solve_ivp_kwargs=opts, **kw)
+            N = len(resp.time)
+            n, m, p = sys.nstates, sys.ninputs, sys.noutputs
+            try:
+                return {"ok": {"N": N, "n": n, "m": m, "p": p,
+                               "t": [tok(fr(x)) for x in resp.time],
+                               "x": flat_f(np.asarray(resp.states).T, N, n),
+                               "u": flat_f(np.asarray(resp.inputs).T, N, m),
+                               "y": flat_f(np.asarray(resp.outputs).T, N, p)}}
+            except ValueError:
+                return {"ok": {"nonfinite": True}}
         if k == "lin":
             x0, u0 = varg_value(case["X0"]), varg_value(case["U0"])
             t = float(Fraction(case["t"]))
+            kw = {"eps": float(Fraction(case["eps"]))} if case.get("eps") else {}
             if case["via"] == "func":
-                lin = ct.linearize(sys, x0, u0, t=t, params=prm)
+                lin = ct.linearize(sys, x0, u0, t=t, params=prm, **kw)
             else:
-                lin = sys.linearize(x0, u0, t=t, params=prm)
+                lin = sys.linearize(x0, u0, t=t, params=prm, **kw)
             n, m, p = lin.nstates, lin.ninputs, lin.noutputs
             return {"ok": {"n": n, "m": m, "p": p, "dt": exact.dt_canon(lin.dt),
                            "A": flat_f(lin.A, n, n), "B": flat_f(lin.B, n, m),
@@ -845,12 +1180,21 @@ class C08(Family):
         if k == "shape":
             return {"ok": {"n": tk.nat(), "m": tk.nat(), "p": tk.nat(), "dt": tk.next()}}
         if k == "resp":
-            bits = int(tk.next().split("=")[1])
+            head = tk.next()
+            if head == "overflow":      # values beyond 2^3000 on a prefix of the evaluation times
+                return {"ok": {"N": 0, "n": 0, "m": 0, "p": 0, "x": [], "u": [], "y": []},
+                        "bits": int(tk.next()), "overflow": True}
+            bits = int(head.split("=")[1])
             N, n, m, p = tk.nat(), tk.nat(), tk.nat(), tk.nat()
             rd = lambda c: [tk.next() for _ in range(c)]
-            return {"ok": {"N": N, "n": n, "m": m, "p": p, "x": rd(N * n), "u": rd(N * m), "y": rd(N * p)},
-                    "bits": bits}
-        if k == "lin":
+            ok = {"N": N, "n": n, "m": m, "p": p, "x": rd(N * n), "u": rd(N * m), "y": rd(N * p)}
+            if case.get("scale"):
+                # signals at the level 2^-s: everything below is decided on the values times 2^s
+                ok = self.unscaled(case, ok)
+                bits = max([0] + [max(abs(q.numerator).bit_length(), q.denominator.bit_length())
+                                  for key in "xuy" for q in map(Fraction, ok[key])])
+            return {"ok": ok, "bits": bits}
+        if k in ("lin", "cresp"):
             o = {}
             for nm in "ABCD":
                 r, c = tk.nat(), tk.nat()
@@ -866,12 +1210,37 @@ class C08(Family):
             return {"ok": {"what": "sol", "x": rd(n), "u": rd(m), "y": rd(p)}}
         raise ValueError(k)
 
+    def absorbing(self, case):
+        """cases in which the signals of a loop with direct terms differ by many orders of magnitude
+        (time values 2^-30 multiplying signals; a step eps through maps of degree 2): the exact
+        iteration of _compute_static_io keeps changing by amounts far below one unit in the last
+        place, so in binary64 the loop test `ulist == new_ulist` succeeds where the exact one fails"""
+        homog = all(self.homogeneous(lf) for lf in leaves(case["sys"]))
+        if case.get("tscale") and uses_time(case["sys"]):
+            return True
+        if case["kind"] == "lin" and case.get("eps") and not homog:
+            return True
+        return False
+
+    def unscaled(self, case, d):
+        """trajectory values times 2^scale (exact)"""
+        k = case.get("scale", 0)
+        if not k or "x" not in d:
+            return d
+        f = Fraction(2) ** k
+        out = dict(d)
+        for key in "xuy":
+            out[key] = [tok(Fraction(v) * f) for v in d[key]]
+        return out
+
     def features(self, case, kind, impl):
         feat = {"kind": kind, "op": case["kind"]}
         if "err" in impl:
             feat["exc"] = impl["exc"].split(":")[0]
             feat["msg"] = re.sub(r"[0-9]+", "#", impl["exc"].split(":", 1)[1].strip())[:60]
         feat["ops"] = "+".join(sorted(set(ops_in(case["sys"])))) or "leaf"
+        if case.get("scale"):
+            feat["scaled"] = True
         return feat
 
     def compare(self, case, impl, model):
@@ -882,6 +1251,8 @@ class C08(Family):
             # whether the loop iteration of an interconnection settles depends on the point at which
             # the maps are evaluated; the root finder and the model probe different points
             return Verdict(AGREE)
+        if k == "cresp":
+            return self.compare_cresp(case, impl, model)
         if k == "resp" and model.get("bits", 0) > 200:
             return Verdict(AGREE)      # overflow guard: values beyond what binary64 carries
         if "err" in model:
@@ -892,6 +1263,8 @@ class C08(Family):
                     return Verdict(AGREE)   # which of the two failures is met first depends on the probe point
                 return Verdict(DIFFERS, "both raise, kinds differ: model %s, implementation %s"
                                % (model["err"], impl["exc"]), self.features(case, "errkind", impl))
+            if model["err"] == "illPosed" and self.absorbing(case):
+                return Verdict(AGREE)
             return Verdict(VIOLATES, "the implementation returns where the model raises %s" % model["err"],
                            self.features(case, "returns-" + model["err"], impl))
         if "err" in impl:
@@ -903,6 +1276,8 @@ class C08(Family):
             return Verdict(VIOLATES, "implementation raises %s where the result exists" % impl["exc"],
                            self.features(case, "raises", impl))
         a, b = impl["ok"], model["ok"]
+        if k == "resp":
+            a = self.unscaled(case, a)
         if k == "shape":
             if (a["n"], a["m"], a["p"]) != (b["n"], b["m"], b["p"]):
                 return Verdict(VIOLATES, "sizes (n,m,p) %s vs model %s" % (
@@ -938,8 +1313,10 @@ class C08(Family):
                 j = next(i for i, (p, q) in enumerate(zip(va, vb)) if p != q)
                 width = max(1, {"u": b["m"], "x": b["n"], "y": b["p"]}[nm])
                 return Verdict(VIOLATES, "%s differ from the recursion x[k+1]=f(t_k,x[k],u[k]), y[k]=h(…) at "
-                               "step %d component %d: implementation %s, exact %s" % (
-                                   what, j // width, j % width, float(va[j]), float(vb[j])),
+                               "step %d component %d: implementation %s, exact %s%s" % (
+                                   what, j // width, j % width, float(va[j]), float(vb[j]),
+                                   " (signals at level 2^%d, values shown times 2^%d)" % (
+                                       -case["scale"], case["scale"]) if case.get("scale") else ""),
                                self.features(case, "traj-" + nm, impl))
             return Verdict(AGREE)
         if k == "lin":
@@ -974,11 +1351,119 @@ class C08(Family):
             return Verdict(AGREE)
         raise ValueError(k)
 
+    # ---- continuous time ---------------------------------------------------------------------
+    def reference(self, case, mats):
+        """exact response of x' = A x + B u, y = C x + D u to the piecewise linear input through
+        (T, U) at the evaluation times (matrix exponential of the augmented system per interval);
+        inputs / initial state taken times 2^scale"""
+        from scipy.linalg import expm
+        f = Fraction(2) ** case["scale"]
+        (n, _), (_, m) = mats["shapeA"], mats["shapeB"]
+        p = mats["shapeC"][0]
+        M = lambda nm, r, c: np.array([float(Fraction(v)) for v in mats[nm]]).reshape(r, c)
+        A, B, C, D = M("A", n, n), M("B", n, m), M("C", p, n), M("D", p, m)
+        T = [Fraction(x) for x in case["T"]]
+        N = len(T)
+        U = case["U"]
+        un = lambda l: [float(Fraction(v) * f) for v in l]
+        if U[0] == "S":
+            Um = np.full((m, N), un([U[1]])[0])
+        elif U[0] == "A1":
+            Um = np.array(un(U[1])).reshape(1, N)
+        else:
+            Um = np.array(un(U[3])).reshape(U[1], U[2])
+        X0 = case["X0"]
+        if X0[0] == "S":
+            x = np.full(n, un([X0[1]])[0])
+        elif X0[0] == "A":
+            x = np.array(un(X0[1]))
+        else:
+            x = np.array(un([e[1] for e in X0[1]]))
+        if Um.shape != (m, N) or x.shape != (n,):
+            return None
+        te = [Fraction(v) for v in (case["teval"] if case["teval"] is not None else case["T"])]
+        Z = np.zeros((n + 2 * m, n + 2 * m))
+        Z[:n, :n], Z[:n, n:n + m], Z[n:n + m, n + m:] = A, B, np.eye(m)
+
+        def uat(t, k):       # input on segment k (between T[k] and T[k+1])
+            w = float((t - T[k]) / (T[k + 1] - T[k]))
+            return Um[:, k] * (1 - w) + Um[:, k + 1] * w
+
+        xs, us, ys = [], [], []
+        tcur, seg = T[0], 0
+        for t in te:
+            while tcur < t:
+                while seg < N - 2 and T[seg + 1] <= tcur:
+                    seg += 1
+                tnext = min(t, T[seg + 1])
+                slope = (Um[:, seg + 1] - Um[:, seg]) / float(T[seg + 1] - T[seg])
+                z = np.concatenate([x, uat(tcur, seg), slope])
+                x = (expm(Z * float(tnext - tcur)) @ z)[:n]
+                tcur = tnext
+            k = min(max(sum(1 for v in T if v < t), 1), N - 1) - 1      # the segment ufun uses at t
+            u = uat(t, k)
+            xs.append(x)
+            us.append(u)
+            ys.append(C @ x + D @ u)
+        return {"x": np.array(xs).reshape(-1), "u": np.array(us).reshape(-1), "y": np.array(ys).reshape(-1)}
+
+    def compare_cresp(self, case, impl, model):
+        if model.get("err") == "illPosed":
+            return Verdict(AGREE)       # whether the loop iteration settles depends on the signal values
+        if "err" in model:
+            if "err" in impl:
+                if impl["err"] == model["err"]:
+                    return Verdict(AGREE)
+                return Verdict(DIFFERS, "both raise, kinds differ: model %s, implementation %s"
+                               % (model["err"], impl["exc"]), self.features(case, "errkind", impl))
+            return Verdict(VIOLATES, "the implementation returns where the model raises %s" % model["err"],
+                           self.features(case, "returns-" + model["err"], impl))
+        if "err" in impl:
+            if impl["err"] == "illPosed" and "fb" in ops_in(case["sys"]):
+                return Verdict(AGREE)   # exact float comparison in the loop test on solver stage values
+            if "solve_ivp failed" in impl["exc"]:
+                return Verdict(AGREE)   # failure is reported
+            return Verdict(VIOLATES, "implementation raises %s where the response exists" % impl["exc"],
+                           self.features(case, "raises", impl))
+        a, b = impl["ok"], model["ok"]
+        if a.get("nonfinite"):
+            return Verdict(VIOLATES, "non-finite values in the response", self.features(case, "nonfinite", impl))
+        n, m, p = b["shapeA"][0], b["shapeB"][1], b["shapeC"][0]
+        te = case["teval"] if case["teval"] is not None else case["T"]
+        if (a["N"], a["n"], a["m"], a["p"]) != (len(te), n, m, p):
+            return Verdict(VIOLATES, "response sizes (N,n,m,p) %s vs model %s" % (
+                (a["N"], a["n"], a["m"], a["p"]), (len(te), n, m, p)), self.features(case, "sizes", impl))
+        if a["t"] != list(te):
+            return Verdict(VIOLATES, "returned time vector differs from the evaluation times",
+                           self.features(case, "time", impl))
+        ref = self.reference(case, b)
+        if ref is None:
+            return Verdict(AGREE)
+        a = self.unscaled(case, a)
+        M = max(1.0, max(float(np.max(np.abs(ref[key]))) if len(ref[key]) else 0.0 for key in "xuy"))
+        if not np.isfinite(M) or M > 1e100:
+            return Verdict(AGREE)
+        for nm, what, tol in (("u", "inputs", 1e-9), ("x", "states", CTOL), ("y", "outputs", CTOL)):
+            va = np.array([float(Fraction(v)) for v in a[nm]])
+            err = np.abs(va - ref[nm])
+            if len(err) and float(np.max(err)) > tol * M:
+                j = int(np.argmax(err))
+                width = max(1, {"u": m, "x": n, "y": p}[nm])
+                return Verdict(VIOLATES, "continuous-time %s differ from the exact response of the composite "
+                               "linear system at evaluation time %d component %d: implementation %r, exact %r "
+                               "(largest value %g, signals at 2^%d)" % (
+                                   what, j // width, j % width, float(va[j]), float(ref[nm][j]), M, -case["scale"]),
+                               self.features(case, "ctraj-" + nm, impl))
+        return Verdict(AGREE)
+
     def exact_regime(self, case, model):
         if model.get("bits", 0) > EXACT_BITS:
             return False
         ts = case["T"] + (case["teval"] or [])
-        if any(Fraction(x).denominator > 64 for x in ts):
+        # a grid at the level 2^-r gives the same interpolation weights as the grid times 2^r; the
+        # maps see the time only when they use it
+        r = case.get("tscale", 0) if not uses_time(case["sys"]) else 0
+        if any((Fraction(x) * 2 ** r).denominator > 64 for x in ts):
             return False
         if "div" in ops_in(case["sys"]):
             return False
@@ -994,6 +1479,10 @@ class C08(Family):
             return b["N"] >= 3 and any(Fraction(v) != 0 for v in b["u"] + b["x"][:b["n"]])
         if k == "lin":
             return len(b["A"]) >= 1
+        if k == "cresp":
+            nz = lambda l: any(Fraction(v) != 0 for v in l)
+            return len(b["A"]) >= 1 and (nz(case["U"][1] if case["U"][0] != "A2" else case["U"][3]) if
+                                         case["U"][0] != "S" else nz([case["U"][1]]))
         if k == "op":
             return b["what"] == "sol"
         return bool(ops_in(case["sys"]))
@@ -1002,6 +1491,24 @@ class C08(Family):
         t = case["sys"]
         st = {"kind": case["kind"], "root": t[0], "size": min(size(t), 10),
               "outcome": ("err:" + model["err"]) if "err" in model else "ok"}
+        if case["kind"] != "shape":
+            st["timebase"] = tree_dt(t)[0]
+        if case.get("scale"):
+            k = case["scale"]
+            st["level"] = "2^+" if k < 0 else "2^-%d.." % (10 * (k // 10))
+        if case.get("tscale"):
+            st["tscale"] = case["tscale"]
+        if case["kind"] == "cresp":
+            st["teval"] = case["teval"] is not None
+            st["method"] = case["method"]
+            if "ok" in model:
+                st["n"] = min(model["ok"]["shapeA"][0], 6)
+            if "err" in impl:
+                st["impl"] = impl["err"]
+        if case["kind"] == "lin":
+            st["eps"] = "default" if not case.get("eps") else (
+                "2^-%d.." % (10 * ((Fraction(case["eps"]).denominator.bit_length() - 1) // 10))
+                if case["eps"].startswith("1/") else case["eps"])
         if case["kind"] == "resp":
             st["U"] = case["U"][0]
             st["X0"] = case["X0"][0]
@@ -1042,7 +1549,8 @@ class C08(Family):
                     yield {"kind": "shape", "sys": t[i]}
 
     def search(self, rng, case, tier):
-        gen = {"resp": self.case_resp, "lin": self.case_lin, "op": self.case_op, "shape": self.case_shape}
+        gen = {"resp": self.case_resp, "lin": self.case_lin, "op": self.case_op, "shape": self.case_shape,
+               "cresp": self.case_cresp}
         return [gen[case["kind"]](rng, "quick") for _ in range(300)]
 
 
